@@ -53,11 +53,13 @@ type Analysis[S any] struct {
 	// inlined body (sub is the context of the callee's body, fc the caller's).
 	// Key (optional) renders a state canonically; with it the non-final analyses of inlined
 	// callees are memoised per (call chain, entry state).
-	Key      func(s S) string
-	memo     map[string][]exitInfo[S]
-	Inline   func(call *ast.CallExpr, fc *FlowCtx[S]) *ast.FuncDecl
-	InlEnter func(s S, call *ast.CallExpr, sub, fc *FlowCtx[S]) S
-	InlExit  func(s S, call *ast.CallExpr, sub, fc *FlowCtx[S]) S
+	Key    func(s S) string
+	memo   map[string][]exitInfo[S]
+	Inline func(call *ast.CallExpr, fc *FlowCtx[S]) *ast.FuncDecl
+	// ExitPerClass: see runBlock (Exit is called once per result class of a returned callee).
+	ExitPerClass bool
+	InlEnter     func(s S, call *ast.CallExpr, sub, fc *FlowCtx[S]) S
+	InlExit      func(s S, call *ast.CallExpr, sub, fc *FlowCtx[S]) S
 	// InlDone (optional) post-processes the joined state after an inlined call (all exits,
 	// and the nil / non-nil error continuations).
 	InlDone func(s S, call *ast.CallExpr, sub, fc *FlowCtx[S]) S
@@ -502,6 +504,10 @@ func (e *Analysis[S]) runBlock(fc *FlowCtx[S], b *cfg.Block, st fstate[S], ftype
 			}
 		}
 		fc.Nil = st.nils
+		var stBefore S
+		if _, isRet := n.(*ast.ReturnStmt); isRet && e.ExitPerClass {
+			stBefore = e.Copy(st.s)
+		}
 		st.s = e.Stmt(st.s, n, fc)
 		if boundSplit != nil {
 			// The continuations go through the binding statement as well.
@@ -564,8 +570,40 @@ func (e *Analysis[S]) runBlock(fc *FlowCtx[S], b *cfg.Block, st fstate[S], ftype
 				}
 			}
 			if fc.final && e.Exit != nil {
-				fc.Nil = st.nils
-				e.Exit(st.s, ret, fc)
+				// (ExitPerClass) "return helper(...)" / "x, err = helper(...); return x, err":
+				// the client sees the exit once per class of the callee's result, each with the
+				// callee's state of that class taken through this return statement, instead of
+				// once with their join.
+				var sp *split[S]
+				if e.ExitPerClass && len(ret.Results) > 0 {
+					if boundSplit != nil && unparen(ret.Results[len(ret.Results)-1]) == ast.Expr(boundCall) {
+						sp = boundSplit
+					} else {
+						sp = e.returnedSplit(ret, fstate[S]{s: stBefore, nils: st.nils, splits: st.splits, ok: true})
+					}
+				}
+				if sp != nil && !sp.boolean && (sp.nilS != nil || sp.nonNilS != nil) {
+					robj := objOf(e.Info, unparen(ret.Results[len(ret.Results)-1]))
+					for _, cl := range []struct {
+						s   *S
+						cls nilState
+					}{{sp.nilS, isNil}, {sp.nonNilS, nonNil}} {
+						if cl.s == nil {
+							continue
+						}
+						nils := st.nils.copy()
+						if robj != nil {
+							nils[robj] = cl.cls
+						}
+						fc.Nil = nils
+						v := e.Stmt(e.Copy(*cl.s), n, fc)
+						e.Exit(v, ret, fc)
+					}
+					fc.Nil = st.nils
+				} else {
+					fc.Nil = st.nils
+					e.Exit(st.s, ret, fc)
+				}
 			}
 		}
 	}
